@@ -500,7 +500,7 @@ impl<'c, Q: Queue> Interp<'c, Q> {
         self.force_drain = true;
     }
 
-    pub fn do_iter_mut(&mut self, prog: &[ItCall], rw: Rewrite, rwmask: u64, tagw: Option<u32>, end: EndHow, via_into: bool) {
+    pub fn do_iter_mut(&mut self, prog: &[ItCall], rw: Rewrite, rwmask: u64, tagw: Option<u32>, end: EndHow, via_into: bool, late: bool) {
         let before = self.model.clone();
         let r = self.resolve_rw(rw);
         let n = before.len();
@@ -549,7 +549,16 @@ impl<'c, Q: Queue> Interp<'c, Q> {
                     }
                 }
             }
-            // the references are still alive here: write through every one of them, as a client would.
+            // `late`: the iterator goes away first (it is consumed by e.g. collect()); the references
+            // it yielded are still alive and are written through afterwards
+            let mut it = Some(it);
+            if late {
+                match end {
+                    EndHow::Drop => drop(it.take()),
+                    EndHow::Forget => std::mem::forget(it.take()),
+                }
+            }
+            // write through every reference, as a client would.
             // (If the iterator handed out an element twice the second write lands on the rewritten
             // value, so the aliasing also shows as a content difference.)
             let mut done = std::collections::BTreeSet::new();
@@ -566,9 +575,11 @@ impl<'c, Q: Queue> Interp<'c, Q> {
                 }
             }
             drop(held);
-            match end {
-                EndHow::Drop => drop(it),
-                EndHow::Forget => std::mem::forget(it),
+            if let Some(it) = it {
+                match end {
+                    EndHow::Drop => drop(it),
+                    EndHow::Forget => std::mem::forget(it),
+                }
             }
         }
         let mut out = Vec::new();
@@ -598,6 +609,9 @@ impl<'c, Q: Queue> Interp<'c, Q> {
         if changed > 0 {
             self.stats.hit("iter_mut_rewrite");
             self.mark_disturb();
+            if late {
+                self.stats.hit("iter_mut_late_write_changed");
+            }
         }
         match end {
             EndHow::Drop => {
